@@ -23,13 +23,20 @@ def classify_compile_error(msgs):
     return codes[0] if codes else 'unknown'
 
 
-def is_compile_violation(policy, code):
+def is_compile_violation(policy, code, msg=''):
     """policy True: every compile failure of a corpus program is a violation (the property is about compiling).
     policy 'coded': only a rustc-coded error (E....), i.e. the macro accepted the input and emitted code rustc rejects - there is
     then no generated method the property could hold for; a diagnostic of the macro itself (no code) is recorded, not judged."""
     if policy is True:
         return True
-    return policy == 'coded' and re.match(r'E\d+$', code or '') is not None
+    if policy != 'coded':
+        return False
+    if re.match(r'E\d+$', code or '') is not None:
+        return True
+    # an uncoded error is a diagnostic some macro wrote: entrait's own (the input is then not an accepted one: recorded, not judged),
+    # or another macro's (async_trait, mockall, unimock ..) complaining about what entrait generated: judged
+    origin = re.search(r'originates in the (?:attribute |derive )?macro `([^`]+)`', msg or '')
+    return origin is not None and 'entrait' not in origin.group(1)
 
 
 def run_corpus(out, progs, name, unimock_feature=False, tests=False, jobs=16, kani_extra=(),
@@ -52,7 +59,7 @@ def run_corpus(out, progs, name, unimock_feature=False, tests=False, jobs=16, ka
         p = by_pid[pid]
         code = classify_compile_error(msgs)
         stats['compile_failed'][pid] = dict(desc=p.desc, error=code, first=msgs[0][:600])
-        if is_compile_violation(compile_failure_is_violation, code):
+        if is_compile_violation(compile_failure_is_violation, code, '\n'.join(msgs)):
             rdir = os.path.join(run.WORK, 'replay', f'{out.prop}_{pid}_compile')
             write_compile_replay(p, rdir, unimock_feature, msgs)
             out.violation(f'compile:{code}:{p.tag}', f'expansion of program {pid} ({p.desc}) does not compile: {code}',
@@ -81,7 +88,7 @@ def run_corpus(out, progs, name, unimock_feature=False, tests=False, jobs=16, ka
             p = by_pid[pid]
             code = classify_compile_error(msgs)
             stats['compile_failed'][pid] = dict(desc=p.desc, error=code, first=msgs[0][:600], where='harness (call site)')
-            if is_compile_violation(compile_failure_is_violation, code):
+            if is_compile_violation(compile_failure_is_violation, code, '\n'.join(msgs)):
                 rdir = os.path.join(run.WORK, 'replay', f'{out.prop}_{pid}_compile')
                 write_compile_replay(p, rdir, unimock_feature, msgs)
                 out.violation(f'compile-callsite:{code}:{p.tag}', f'call site of program {pid} ({p.desc}) does not compile against the expansion: {code}',
